@@ -42,6 +42,7 @@ fn worker_of(id: &str) -> Option<fn(&Ctx, WorkerCtx, &[String])> {
         "C03" => Some(c03::worker),
         "C16" => Some(c16::worker),
         "C17" => Some(c17::worker),
+        "C19" => Some(c19::worker),
         _ => None,
     }
 }
